@@ -26,6 +26,8 @@ CONF = {
     "C08": tiers(4000, 4, 50000, 12),
     "C05": dict(quick=dict(checks=0, shards=0, stages=["c05"], staged_replay=True, batches=1, defs=40, inputs=150, timeout=1200, min_evaluations=100),
                 thorough=dict(checks=0, shards=0, stages=["c05"], staged_replay=True, batches=8, defs=120, inputs=300, timeout=3000, min_evaluations=100)),
+    "C14": dict(quick=dict(checks=0, shards=0, stages=["c14"], staged_replay=True, batches=1, grammars=200, timeout=1200, min_evaluations=50),
+                thorough=dict(checks=0, shards=0, stages=["c14"], staged_replay=True, batches=10, grammars=400, timeout=3000, min_evaluations=50)),
     "C10": tiers(2500, 4, 40000, 12),
     "C11": tiers(2500, 4, 40000, 12),
     "C13": tiers(1500, 4, 25000, 12),
